@@ -284,9 +284,10 @@ type WEnv struct {
 	Failed       bool // an API call failed (fault injection); later expectations are void
 	CurKind      string
 	Quick        bool
-	BeforeFinish func()           // called by writePhase after the last message, before an abandoned writer is closed
-	Between      func(pos string) // extra hook between the calls of a message program
-	CtlDL        time.Time        // deadline argument used for WriteControl
+	AfterClose   func(w io.WriteCloser) // called after a successful explicit Close of a message writer
+	BeforeFinish func()                 // called by writePhase after the last message, before an abandoned writer is closed
+	Between      func(pos string)       // extra hook between the calls of a message program
+	CtlDL        time.Time              // deadline argument used for WriteControl
 	curCall      int
 }
 
@@ -515,6 +516,9 @@ func (e *WEnv) WriteMessageProg(prog, mt, n, pattern int, pick, pick2 chooser, b
 		}
 		ac = e.call("Close", func() error { return w.Close() })
 		e.sent(mt, payload, ac, comp)
+		if e.AfterClose != nil && ac.Err == nil {
+			e.AfterClose(w)
+		}
 	case PJSON:
 		v := string(Pattern(4, n))
 		ac := e.call(fmt.Sprintf("WriteJSON(string of %d)", n), func() error { return e.C.WriteJSON(v) })
